@@ -7,7 +7,7 @@ TRUSTED_BASE = [
     "Rust harness /verif/harness (drives the real code, dumps its state), python orchestrator ./check",
     "HashMap/DashMap as finite maps, VecDeque as a list, monotone Instant, fastrand as an arbitrary choice < len",
     "source translators checklib/static_scopes.py (lock / RefCell nesting -> Generated/*.lean, C16s / C17s) and checklib/static_sites.py (lock-site inventory): lexical scanners, trusted",
-    "source translator checklib/rust2lean.py (pure helper code of memory_estimator.rs, utils.rs, cache_entry.rs, stats.rs, eviction_policy.rs -> Generated/Pure*.lean, theorems T01..T05): a parser + emitter for the Rust subset these files use, trusted; the meaning of the library calls (usize subtraction, VecDeque / HashMap / iterator methods, atomics, f64 as an abstract structure) is the hand-written Cachelito/RustLite.lean, trusted; Rust's trait resolution (which MemoryEstimator impl a shape uses) is transcribed in Cachelito/Source/Mem.lean",
+    "source translator checklib/rust2lean.py (pure helper code of memory_estimator.rs, utils.rs, cache_entry.rs, stats.rs, eviction_policy.rs and the victim scans + insert / is_already_key_inserted / handle_entry_limit_eviction of async_global_cache.rs -> Generated/Pure*.lean, theorems T01..T07): a parser + emitter for the Rust subset these files use, trusted; the meaning of the library calls (usize subtraction, VecDeque / HashMap / iterator methods, atomics, f64 as an abstract structure) is the hand-written Cachelito/RustLite.lean, trusted; Rust's trait resolution (which MemoryEstimator impl a shape uses) is transcribed in Cachelito/Source/Mem.lean",
 ]
 
 HOOK_COMMITS = [
@@ -76,7 +76,7 @@ TECH = "Lean 4 theorem (induction over operation histories / invariants) + per-s
 
 PROPS = {
     "C01": {
-        "lean_modules": ["Cachelito.Props.C01", "Cachelito.Props.C01b", "Cachelito.Props.C01c"],
+        "lean_modules": ["Cachelito.Props.C01", "Cachelito.Props.C01b", "Cachelito.Props.C01c", "Cachelito.Props.T07"],
         "streams": [core_stream(nontrivial=["hit", "re-store"]), macro_stream(nontrivial=["hit"]),
                     sched_stream(nontrivial=['served-call-source-checked'], quick=(6, 8, 60), what="L3: scheduled runs of 2-3 real threads (calls racing with stores of the same key and with invalidations): every call returns the function's value for its own arguments, and a call served from the cache has a legitimate source (a store for the same arguments that no completed invalidation separates from it)")],
         "monitors": ["C01"],
@@ -133,13 +133,13 @@ PROPS = {
         "design_ref": "DESIGN.md §7 C19", "assumptions": [],
     },
     "C04": {
-        "lean_modules": ["Cachelito.Props.C04", "Cachelito.Props.X01", "Cachelito.Props.T02"],
+        "lean_modules": ["Cachelito.Props.C04", "Cachelito.Props.X01", "Cachelito.Props.T02", "Cachelito.Props.T07"],
         "streams": [core_stream(nontrivial=["eviction", "expiry"], enumerate_=SMALL_SCOPE)],
         "monitors": ["C04"],
         "rule": "generated episodes (config product flavour x policy x limit x max_memory x ttl x fw, key alphabet limit+2) run on the real engines; a step is non-trivial when it evicts or purges an entry; distinct = distinct (config, pre-state, operation)",
         "level_text": "Machine-checked Lean theorems: the store/queue bookkeeping invariant holds in every reachable state, |store| <= limit after every operation of every history, and a plain store leaves exactly min(limit, held + [key new]) entries (one victim per overflow, none otherwise), for all flavours, policies, score algebras, sizes and random draws. The model is tied to the code by per-step full-state comparison on generated and (thorough) exhaustively enumerated histories.",
         "level_note": MODEL_NOTE,
-        "technique": TECH + " + source-to-model translator for the pure helper code (utils.rs / cache_entry.rs / memory_estimator.rs / stats.rs / eviction_policy.rs regenerated into Lean on every run, translated function = model definition re-proved)", "design_ref": "DESIGN.md §7 C04",
+        "technique": TECH + " + source-to-model translator for the pure helper code (utils.rs / cache_entry.rs / memory_estimator.rs / stats.rs / eviction_policy.rs and the store path of async_global_cache.rs regenerated into Lean on every run, translated function = model definition re-proved)", "design_ref": "DESIGN.md §7 C04",
         "assumptions": ["limit >= 1", "sequential use (concurrency is C18)"],
     },
     "C05": {
@@ -152,7 +152,7 @@ PROPS = {
         "rule": "L1: memory-aware stores on the real engines with value sizes around max_memory (exact fit, one byte over, oversize); non-trivial = a memory-aware store with max_memory set. Estimator: one random value per line, distinct lines counted",
         "level_text": "Lean theorems: (engine) after every memory-aware store total size <= max_memory for every history, an oversize value changes nothing but its own key, the memory loop removes exactly the shortest prefix of the policy's victim sequence after which the total fits (nothing when it already fits) and always terminates; (estimator) estimate = inline + owned heap (+ borrowed bytes for &str/&[T]), never below the inline size. Tied to the code per step (engines, full state) and per value (estimator).",
         "level_note": MODEL_NOTE + " Rust's size_of values are parameters reported by the harness.",
-        "technique": TECH + " + source-to-model translator for the pure helper code (utils.rs / cache_entry.rs / memory_estimator.rs / stats.rs / eviction_policy.rs regenerated into Lean on every run, translated function = model definition re-proved)", "design_ref": "DESIGN.md §7 C05",
+        "technique": TECH + " + source-to-model translator for the pure helper code (utils.rs / cache_entry.rs / memory_estimator.rs / stats.rs / eviction_policy.rs and the store path of async_global_cache.rs regenerated into Lean on every run, translated function = model definition re-proved)", "design_ref": "DESIGN.md §7 C05",
         "assumptions": ["all stores of a history go through insert_with_memory (as the macros generate when max_memory is set)", "size_of table as reported by rustc"],
     },
     "C06": {
@@ -163,21 +163,21 @@ PROPS = {
         "rule": "generated episodes with time steps around the TTL boundary (T-0.1s, T, T+0.1s, whole seconds for async); non-trivial = a lookup of an entry within one second of the boundary or an expiry purge",
         "level_text": "Lean theorems: with ttl = T a lookup of an entry of age >= T s returns nothing, counts a miss and removes the key from store and queue (so it no longer occupies capacity: a following store into the previously full cache evicts nothing); a younger entry (sync: age < T; async: real age <= T-1 s, exact characterisation by the whole-second stamps) is served; at history level a served value always has real age < T. All flavours, policies, limits.",
         "level_note": MODEL_NOTE + " Virtual time: the harness re-stamps entry birth times; Instant is assumed monotone.",
-        "technique": TECH + " + source-to-model translator for the pure helper code (utils.rs / cache_entry.rs / memory_estimator.rs / stats.rs / eviction_policy.rs regenerated into Lean on every run, translated function = model definition re-proved)", "design_ref": "DESIGN.md §7 C06",
+        "technique": TECH + " + source-to-model translator for the pure helper code (utils.rs / cache_entry.rs / memory_estimator.rs / stats.rs / eviction_policy.rs and the store path of async_global_cache.rs regenerated into Lean on every run, translated function = model definition re-proved)", "design_ref": "DESIGN.md §7 C06",
         "assumptions": ["monotone clock"],
     },
     "C07": {
-        "lean_modules": ["Cachelito.Props.C07", "Cachelito.Props.T02"],
+        "lean_modules": ["Cachelito.Props.C07", "Cachelito.Props.T02", "Cachelito.Props.T07"],
         "streams": [core_stream(filters=[["policy=fifo"], ["policy=lru"]], nontrivial=["eviction"])],
         "monitors": ["C07"],
         "rule": "FIFO and LRU episodes on all three engines under entry limits 1..4, memory limits and both; non-trivial = a store that evicted",
         "level_text": "Lean theorems with ghost stamps derived from the history: the queue is sorted by last-store time (FIFO) / last-use time (LRU) in every reachable state, every eviction pops the queue head, hence every key removed by a store (entry limit or memory loop, several victims) is older than every surviving key; reads never change FIFO order. All flavours.",
         "level_note": MODEL_NOTE,
-        "technique": TECH + " + source-to-model translator for the pure helper code (utils.rs / cache_entry.rs / memory_estimator.rs / stats.rs / eviction_policy.rs regenerated into Lean on every run, translated function = model definition re-proved)", "design_ref": "DESIGN.md §7 C07",
+        "technique": TECH + " + source-to-model translator for the pure helper code (utils.rs / cache_entry.rs / memory_estimator.rs / stats.rs / eviction_policy.rs and the store path of async_global_cache.rs regenerated into Lean on every run, translated function = model definition re-proved)", "design_ref": "DESIGN.md §7 C07",
         "assumptions": [],
     },
     "C08": {
-        "lean_modules": ["Cachelito.Props.C08", "Cachelito.Props.T02", "Cachelito.Props.T03", "Cachelito.Props.T06"],
+        "lean_modules": ["Cachelito.Props.C08", "Cachelito.Props.T02", "Cachelito.Props.T03", "Cachelito.Props.T06", "Cachelito.Props.T07"],
         "streams": [core_stream(filters=[["policy=lfu"], ["policy=arc"], ["policy=tlru"], ["policy=lfu", "shape=crowd"],
                                             ["policy=arc", "shape=crowd"], ["policy=tlru", "shape=crowd"],
                                             ["policy=arc", "shape=crowd", "flavour=async"], ["policy=tlru", "shape=crowd", "flavour=async"]],
@@ -186,7 +186,7 @@ PROPS = {
         "rule": "LFU / ARC / TLRU episodes on all three engines, limits 1..4, ttl none/1..3, frequency_weight none/0.1/0.3/1/1.5/3, entry and memory pressure; non-trivial = a store that evicted; the driver mirrors the f64 score exactly",
         "level_text": "Lean theorems: the victim scan returns the FIRST minimiser of the policy's score among stored queue keys for any strict-weak-order comparison (LFU: hits; ARC: hits x rank; TLRU: any scorer), every eviction of a store (limit step and memory loop) is such a victim; LFU victims have the fewest successful lookups (hit counters equal the history's count); async ARC/TLRU: among equally popular entries the least recently used goes first; sync engines: the victim is the first entry with a zero factor, so weight form and rank orientation are unobservable there; TLRU without ttl and weight coincides with ARC on every history.",
         "level_note": MODEL_NOTE + " TLRU theorems assume the f64 comparison is a strict weak order on the scores produced (no NaN) and positive weights; the driver's Float scorer mirrors libm pow.",
-        "technique": TECH + " + source-to-model translator for the pure helper code (utils.rs / cache_entry.rs / memory_estimator.rs / stats.rs / eviction_policy.rs regenerated into Lean on every run, translated function = model definition re-proved)", "design_ref": "DESIGN.md §7 C08",
+        "technique": TECH + " + source-to-model translator for the pure helper code (utils.rs / cache_entry.rs / memory_estimator.rs / stats.rs / eviction_policy.rs and the store path of async_global_cache.rs regenerated into Lean on every run, translated function = model definition re-proved)", "design_ref": "DESIGN.md §7 C08",
         "assumptions": ["frequency_weight > 0", "scores below f64::MAX / hit counters below u64::MAX"],
     },
     "C09": {
@@ -236,7 +236,7 @@ PROPS = {
         "rule": "episodes with invalidate_with / invalidate_all_with over random subsets of the stored keys and group invalidations, followed by further overflow histories; non-trivial = an invalidation that removed something",
         "level_text": "Lean theorems: group invalidations leave every non-matching cache instance (incl. thread-scope ones) equal; invalidate_with / invalidate_all_with yield exactly store.filter(not p) and queue.filter(not p) with survivors' order, values, births and hit counters kept; the invariant is preserved system-wide; sizes and memory totals afterwards are those of the survivors, a following overflow evicts the oldest survivor, and invalidation commutes with stores of the survivors. Tied to the code by dumps of every cache instance after each operation.",
         "level_note": MODEL_NOTE,
-        "technique": TECH + " + source-to-model translator for the pure helper code (utils.rs / cache_entry.rs / memory_estimator.rs / stats.rs / eviction_policy.rs regenerated into Lean on every run, translated function = model definition re-proved)", "design_ref": "DESIGN.md §7 C13", "assumptions": ["distinct cache names"],
+        "technique": TECH + " + source-to-model translator for the pure helper code (utils.rs / cache_entry.rs / memory_estimator.rs / stats.rs / eviction_policy.rs and the store path of async_global_cache.rs regenerated into Lean on every run, translated function = model definition re-proved)", "design_ref": "DESIGN.md §7 C13", "assumptions": ["distinct cache names"],
     },
     "C17": {
         "lean_modules": ["Cachelito.Props.C17", "Cachelito.Props.C17s"],
@@ -264,7 +264,7 @@ PROPS = {
         "design_ref": "DESIGN.md §7 C20", "assumptions": ["the async runtime polls the future only through its public poll interface"],
     },
     "C18": {
-        "lean_modules": ["Cachelito.Props.C18", "Cachelito.Props.C18f"],
+        "lean_modules": ["Cachelito.Props.C18", "Cachelito.Props.C18f", "Cachelito.Props.T07"],
         "streams": [sched_stream(nontrivial=["nested-acquisition", "concurrent-call"]), hammer_stream(), static_stream()],
         "monitors": ["C18"],
         "rule": "scheduled runs of 2-3 real threads (calls overflowing a hot cache, group and conditional invalidations) followed by quiescent dumps and a 5-call sequential probe; non-trivial = a run with nested acquisitions or concurrent calls; distinct by (schedule, event trace)",
@@ -281,7 +281,7 @@ PROPS = {
         "rule": "L1: counters in every state dump; L2: stats_registry::get(name) after every call, get/reset by name incl. unknown names; non-trivial = hit, expiry-as-miss, stats query or reset",
         "level_text": "Lean theorems (sequential): every lookup bumps exactly one counter, hits iff it returned a value (an expired entry is a miss), nothing else touches the counters, hits+misses = number of lookups for every history. Tied to the code by the counters in every L1 state dump and by the registry's per-name statistics after every L2 call. Concurrent part: in scheduled runs of real threads (incl. lookups of expired entries racing with each other and with stores) hits+misses at quiescence must equal the number of completed calls and hits the number of calls served from the cache; and (C15c) in the interleaving model the counters equal the number of counted lookups at every point of every schedule and are exact at quiescence, hits = lookups that returned a value (fetch_add atomicity is assumed). Registry level (C15r: the statistics registry as the table name -> counters cell it is, every public operation of stats_registry and CacheStats, every operation history): get(name) returns exactly the counters of the cell registered last under that name (a reference to the cache's own counters: recordings after registration are visible), counters = recordings since the last reset, reset(name) zeroes exactly that cell and is a frame for every other name with a distinct cell, list = the registered names, clear empties the table and changes no cell; and the abstract per-name counters of the system model are what the table computes for the macros' registrations (refinement). Tied to the code by driving the real stats_registry / CacheStats through arbitrary histories.",
         "level_note": MODEL_NOTE + " AtomicU64::fetch_add is assumed atomic.",
-        "technique": TECH + " + source-to-model translator for the pure helper code (utils.rs / cache_entry.rs / memory_estimator.rs / stats.rs / eviction_policy.rs regenerated into Lean on every run, translated function = model definition re-proved)", "design_ref": "DESIGN.md §7 C15",
+        "technique": TECH + " + source-to-model translator for the pure helper code (utils.rs / cache_entry.rs / memory_estimator.rs / stats.rs / eviction_policy.rs and the store path of async_global_cache.rs regenerated into Lean on every run, translated function = model definition re-proved)", "design_ref": "DESIGN.md §7 C15",
         "assumptions": ["distinct cache names"],
     },
     "C16": {
